@@ -414,6 +414,26 @@ pub fn run(kv: &Args) -> i32 {
             }
         }
     }
+    // ---- the sender's seed object was used before (junk), the message buffer is fresh: the message must be the one built
+    //      on a fresh object and the honest receiver must accept it
+    for (n, h) in hs.iter().enumerate() {
+        let mut init_sseed = vec![0u8; std::mem::size_of::<SenderOTSeed>()];
+        r.fill_bytes(&mut init_sseed);
+        let (msg2, sseed2) = real_build(&h.sid, &h.base, &vec![0u8; NT * TREE_MSG], &init_sseed);
+        n_eval += 1;
+        *kinds.entry("honest-sender-seed-reused".to_string()).or_default() += 1;
+        let zero_seed = vec![0u8; std::mem::size_of::<ReceiverOTSeed>()];
+        let (verdict, rseed) = real_eval(&h.sid, &h.base, &msg2, &zero_seed);
+        if verdict.is_err() {
+            oracle_fail.push(format!("honest run {n}, sender seed object pre-filled with junk: eval_pprf rejected the honest message; {}", full_input(&h.sid, &h.base, &msg2)));
+        } else if let Some(w) = leaves_property(&h.base, &sseed2, &rseed) {
+            oracle_fail.push(format!("honest run {n}, sender seed object pre-filled with junk: {w}; {}", full_input(&h.sid, &h.base, &msg2)));
+        }
+        if msg2 != h.msg || sseed2 != h.sseed {
+            disagreements.push(format!("honest run {n}: build_pprf on a used SenderOTSeed object differs from the run on a fresh one (message equal: {}, seed equal: {})",
+                msg2 == h.msg, sseed2 == h.sseed));
+        }
+    }
     if !all_patterns { disagreements.push("case generator: not all 16 puncture patterns occur".into()); }
 
     // ---------------------------------------------------------------- corrupted messages
